@@ -70,11 +70,17 @@ def matrix_build(uncached):
         cell("Q", "qc", "x + s"),
         {"op": "set_ref", "space": "P", "name": "k", "value": {"lit": 5}, "via": "setattr"},
         {"op": "set_ref", "space": "P", "name": "qobj", "value": {"space": "Q"}, "mode": "absolute"},
+        {"op": "new_space", "name": "Q2"},
+        cell("Q2", "qc", "x + 100"),
+        cell("Q2", "qc2", "x + 300"),
+        # (Q2 is never deleted by the matrix edits: a reference to a deleted object is C13's subject)
+        {"op": "set_ref", "space": "P", "name": "qcell", "value": {"cell": "Q2.qc"}, "mode": "absolute"},
     ]
     for n, body in PATHS.items():
         ops.append(cell("P", n, body))
-        ops.append(cell("P", "u" + n, body, cached=not uncached))     # the same through an intermediate
-        ops.append(cell("P", "cu" + n, "u%s(x) * 2" % n))
+        ops.append(cell("P", "u" + n, body, cached=not uncached))     # the same through two nested
+        ops.append(cell("P", "uu" + n, "u%s(x)" % n, cached=not uncached))   # (optionally uncached) intermediates
+        ops.append(cell("P", "cu" + n, "uu%s(x) * 2" % n))
     ops += [
         {"op": "new_space", "name": "B"},
         {"op": "set_ref", "space": "B", "name": "w", "value": {"lit": 7}, "via": "setattr"},
@@ -85,6 +91,8 @@ def matrix_build(uncached):
         cell("T", "tw", "_model.D.w + x"),
         cell("T", "tb", "_model.D.bc(x)"),
         cell("T", "tu", "_model.P.ua(x) + 1"),
+        cell("T", "tq", "_model.P.qobj.qc(x)"),         # object-valued references read by attribute path
+        cell("T", "tc", "_model.P.qcell(x)"),
         {"op": "new_space", "name": "I", "formula": {"params": [["p", None]]}},
         {"op": "set_ref", "space": "I", "name": "t", "value": {"lit": 9}, "via": "setattr"},
         {"op": "new_space", "parent": "I", "name": "Ch"},
@@ -111,7 +119,11 @@ MATRIX_EDITS = {
     "change P.k": sref("P", "k", 50), "del P.k": {"op": "del_ref", "space": "P", "name": "k"},
     "change Ch.r": sref("P.Ch", "r", 30), "del Ch.r": {"op": "del_ref", "space": "P.Ch", "name": "r"},
     "change Q.s": sref("Q", "s", 40), "del Q.s": {"op": "del_ref", "space": "Q", "name": "s"},
-    "rebind P.qobj": {"op": "set_ref", "space": "P", "name": "qobj", "value": {"space": "B"}, "mode": "absolute"},
+    "rebind P.qobj": {"op": "set_ref", "space": "P", "name": "qobj", "value": {"space": "Q2"}, "mode": "absolute"},
+    "rebind P.qobj to B": {"op": "set_ref", "space": "P", "name": "qobj", "value": {"space": "B"}, "mode": "absolute"},
+    "rebind P.qcell": {"op": "set_ref", "space": "P", "name": "qcell", "value": {"cell": "Q2.qc2"}, "mode": "absolute"},
+    "formula Q2.qc": F("Q2", "qc", "x + 200"),
+    "del P.qobj": {"op": "del_ref", "space": "P", "name": "qobj"},
     "change m.g": sref("", "g", 10), "del m.g": {"op": "del_ref", "space": "", "name": "g"},
     "change m.h": sref("", "h", 20), "del m.h": {"op": "del_ref", "space": "", "name": "h"},
     "new m ref z": sref("", "z", 0),
